@@ -3,7 +3,12 @@ package transactions
 // C41 native fuzz targets (thorough tier only) for the wire types of this package; seed corpora live in
 // /verif/corpus/<FuzzName>/ (written once by TestVerif_C41_WriteCorpus_* with VERIF_WRITE_CORPUS=<dir>).
 
-import "testing"
+import (
+	"fmt"
+	"testing"
+
+	"github.com/algorand/go-algorand/protocol"
+)
 
 func FuzzVerif_C41_SignedTxn(f *testing.F) { c41FuzzRun(f, "SignedTxn") }
 
@@ -12,4 +17,80 @@ func FuzzVerif_C41_SignedTxnInBlock(f *testing.F) { c41FuzzRun(f, "SignedTxnInBl
 func TestVerif_C41_WriteCorpus_data_transactions(t *testing.T) {
 	c41WriteCorpus(t, "FuzzVerif_C41_SignedTxn", "SignedTxn")
 	c41WriteCorpus(t, "FuzzVerif_C41_SignedTxnInBlock", "SignedTxnInBlock")
+}
+
+// TestVerif_C41_Depth_data_transactions: the only self-containing wire type is EvalDelta (inner transactions). A
+// message nested deeper than the declared decode depth (protocol.maxMsgpDecodeDepth = 255 generated-decoder levels)
+// must be refused by protocol.Decode; no decoder may crash on it.
+func TestVerif_C41_Depth_data_transactions(t *testing.T) {
+	vk := vkBegin(t, "C41")
+	vk.Rule("SignedTxnWithAD whose EvalDelta.InnerTxns nests d levels (d = 1..2000, each level = >= 2 generated-decoder levels), encoded by the generated encoder and decoded as SignedTxnWithAD / SignedTxnInBlock / ApplyData / EvalDelta / Payset; oracle: no escaping panic, and d >= 300 (beyond 255 by any counting) is rejected by protocol.Decode; non-trivial = d >= 300")
+	build := func(d int) SignedTxnWithAD {
+		mk := func(i int) SignedTxnWithAD {
+			var s SignedTxnWithAD
+			s.Txn.Type = "pay"
+			s.Txn.Sender[0] = byte(i) | 1
+			s.Txn.Fee.Raw = uint64(i) + 1
+			return s
+		}
+		cur := mk(0)
+		for i := 1; i <= d; i++ {
+			next := mk(i)
+			next.ApplyData.EvalDelta.InnerTxns = []SignedTxnWithAD{cur}
+			cur = next
+		}
+		return cur
+	}
+	type rp struct {
+		Depth int
+		As    string
+	}
+	deepest := 0
+	for _, d := range []int{1, 2, 10, 50, 100, 120, 126, 127, 128, 130, 200, 254, 255, 256, 300, 500, 1000, 2000} {
+		top := build(d)
+		forms := map[string][]byte{
+			"SignedTxnWithAD":  protocol.Encode(&top),
+			"SignedTxnInBlock": protocol.Encode(&SignedTxnInBlock{SignedTxnWithAD: top}),
+			"ApplyData":        protocol.Encode(&top.ApplyData),
+			"EvalDelta":        protocol.Encode(&top.ApplyData.EvalDelta),
+			"Payset":           protocol.Encode(Payset{SignedTxnInBlock{SignedTxnWithAD: top}}),
+		}
+		for _, name := range []string{"SignedTxnWithAD", "SignedTxnInBlock", "ApplyData", "EvalDelta", "Payset"} {
+			var ty *eType
+			for i := range eTypes {
+				if eTypes[i].Name == name {
+					ty = &eTypes[i]
+				}
+			}
+			if ty == nil {
+				continue
+			}
+			in := forms[name]
+			r := eDecode(ty, in, false, true)
+			if r.Panic != nil {
+				vk.Failf(rp{d, name}, "protocol.Decode panicked on %d nested inner transactions: %v", d, r.Panic)
+			}
+			if r.Alloc > eAllocBudget(len(in))+uint64(d)*64<<10 {
+				vk.Failf(rp{d, name}, "protocol.Decode allocated %d bytes for %d nested inner transactions (%d input bytes)", r.Alloc, d, len(in))
+			}
+			if d >= 300 && r.Err == nil {
+				vk.Failf(rp{d, name}, "protocol.Decode accepted %s with inner transactions nested %d deep; the declared decode depth is 255", name, d)
+			}
+			if r.Err == nil && d > deepest {
+				deepest = d
+			}
+			r2 := eDecode(ty, in, true, false)
+			if r2.Panic != nil {
+				vk.Failf(rp{d, name}, "protocol.DecodeReflect panicked on %d nested inner transactions: %v", d, r2.Panic)
+			}
+			if r.Err == nil {
+				vk.Labelf("accepted:%s", name)
+			} else {
+				vk.Labelf("rejected:%s", name)
+			}
+			vk.Case(d >= 300, fmt.Sprintf("%s/%d", name, d))
+		}
+	}
+	vk.Add("deepest_nesting_accepted", int64(deepest))
+	vk.Sample(true, map[string]int{"deepest_nesting_accepted_by_protocol.Decode": deepest})
 }
